@@ -1,5 +1,274 @@
-import TbbVerif.Model.C19
+/-
+C19 — call_once and thread-specific storage: one winner, one element per thread.
+Property theorems only (lemmas and invariants live in Proofs/C19/*.lean).
+
+OnceFlag theorems quantify over EVERY number of callers `calls.length ≤ collaborative_once_max_references`
+(= 128, regenerated), every number of calls per caller, EVERY oracle `throws : Nat → Bool` (outcome of the user
+function on its k-th invocation) and EVERY schedule `sched : List Tid` of the atomic-access-level model
+`Once.sys` (Model/C19.lean), i.e. every sequentially consistent interleaving of the accesses to the state word, the
+runners' reference counts / ready flags and their wait_contexts.
+The bound on the number of callers cannot be dropped: `once_refcount_overflow_beyond_bound`.
+-/
+import TbbVerif.Proofs.C19.OnceThms
+import TbbVerif.Proofs.C19.EtsThms
+import TbbVerif.Proofs.C19.EtsLoadThm
 import TbbVerif.Generated.C19
+
 namespace TbbVerif.C19
-theorem placeholder_c19 : Generated.C19.maxRefs = Generated.C19.refMask + 1 := by decide
+
+open Once
+
+/-- the generated constant the OnceFlag theorems are stated over -/
+abbrev U : Nat := Generated.C19.maxRefs
+
+/-- The constants the models assume are the ones the headers define (regenerated from /repo on every run):
+the reference mask is `max_references - 1`, `max_references` is a power of two ≥ 2 and equals the alignment of the
+runner (so a runner address has zero low bits and `x | mask`, `x & ~mask`, `x ± 1` act on the (pointer, low bits)
+pair as modelled), `uninitialized = 0`, `done = 1`. -/
+theorem once_constants :
+    Generated.C19.maxRefs = Generated.C19.refMask + 1 ∧ 2 ≤ Generated.C19.maxRefs ∧
+    Generated.C19.runnerAlign = Generated.C19.maxRefs ∧ Generated.C19.maxRefs = 2 ^ 7 ∧
+    Generated.C19.stUninit = 0 ∧ Generated.C19.stDone = 1 ∧ Generated.C19.wordBits = 64 := by decide
+
+/-! ### collaborative_call_once -/
+
+/-- **Exactly one successful completion.**  In every reachable state the user function has completed successfully
+at most once; every call that has returned normally returned when exactly one successful completion had already
+happened (`Ret.ok k` records the number of successful completions at the moment of return); the flag is `done`
+only after that completion and `uninitialized` only when there was none. -/
+theorem once_exactly_one_success (throws : Nat → Bool) (calls : List Nat) (hN : calls.length ≤ U)
+    (sched : List Tid) (s : St) (hs : s = (sys U throws calls).run sched) :
+    s.succ ≤ 1 ∧
+    (∀ (i : Nat) (th : Th) (k : Nat), s.ths[i]? = some th → Ret.ok k ∈ th.rets → k = 1) ∧
+    (s.word = Word.done → s.succ = 1) ∧ (s.word = Word.uninit → s.succ = 0) ∧
+    (∀ (i : Nat) (th : Th), s.ths[i]? = some th → (th.pc = .wReady ∨ th.pc = .wCall) → s.succ = 0) := by
+  subst hs
+  have g := (both_reachable U throws calls hN sched).2
+  exact ⟨g.sle, fun i th k h1 h2 => g.rok i th k h1 h2, g.g1, g.g4, g.g2⟩
+
+/-- **A thrown exception goes to exactly one caller — the winner of that attempt — and the flag is reset so that a
+concurrent or later caller retries.**
+(1) an exception delivered to caller `i` for invocation `k` means `i` ran invocation `k`, that invocation threw, and
+    it was delivered to `i` exactly once;
+(2) no exception is lost: the exception of every throwing invocation is in flight in, or was delivered to, the caller
+    that ran it;
+(3) attempts never overlap: at most one caller is between its winning CAS and its completion CAS;
+(4) the completion CAS of a winner whose function threw stores `uninitialized`;
+(5) when the flag is `uninitialized`, a caller starting a call (later caller) wins within 3 of its own accesses, and a
+    moonlighting caller that was waiting (concurrent caller) wins within 2, if it runs undisturbed. -/
+theorem once_exception_one_caller_and_retry (throws : Nat → Bool) (calls : List Nat) (hN : calls.length ≤ U)
+    (sched : List Tid) (s : St) (hs : s = (sys U throws calls).run sched) :
+    (∀ (i : Nat) (th : Th) (k : Nat), s.ths[i]? = some th → Ret.exc k ∈ th.rets →
+        s.winners[k]? = some i ∧ throws k = true ∧ th.rets.count (Ret.exc k) = 1) ∧
+    (∀ (k i : Nat), s.winners[k]? = some i → throws k = true →
+        ∃ th, s.ths[i]? = some th ∧ (th.pend = some k ∨ Ret.exc k ∈ th.rets)) ∧
+    (∀ (i j : Nat) (thi thj : Th), s.ths[i]? = some thi → s.ths[j]? = some thj →
+        ownerPc thi.pc = true → ownerPc thj.pc = true → i = j) ∧
+    (∀ (t : Nat) (th : Th), s.ths[t]? = some th → th.pc = .wSet → th.pend ≠ none → s.word = Word.runner t →
+        (step U throws s t).word = Word.uninit) ∧
+    (s.word = Word.uninit → ∀ (t : Nat) (th : Th) (rn : Rn), s.ths[t]? = some th → s.rns[t]? = some rn →
+        ((th.pc = .idle ∧ th.calls ≠ 0) →
+          let s3 := step U throws (step U throws (step U throws s t) t) t
+          s3.word = Word.runner t ∧ ∃ th3, s3.ths[t]? = some th3 ∧ th3.pc = .wReady) ∧
+        (th.pc = .hSpin →
+          let s2 := step U throws (step U throws s t) t
+          s2.word = Word.runner t ∧ ∃ th2, s2.ths[t]? = some th2 ∧ th2.pc = .wReady)) := by
+  subst hs
+  obtain ⟨h, g⟩ := both_reachable U throws calls hN sched
+  refine ⟨g.x2, g.x3, fun i j thi thj hi hj oi oj => owner_unique U _ h i j thi thj hi hj oi oj,
+    fun t th hth hpc hp hw => reset_on_throw U throws _ t th h g hth hpc hp hw, ?_⟩
+  intro hw t th rn hth hrn
+  exact ⟨fun hc => retry_later U throws _ t th rn hth hrn hc.1 hc.2 hw,
+         fun hpc => retry_concurrent U throws _ t th rn (by decide) hth hrn hpc hw⟩
+
+/-- **The helper count never overflows into the pointer bits, and a runner is not destroyed while a helper holds a
+guard on it.**  In every reachable state: no carry/borrow across the bit fields, no access to a destroyed runner or
+to unconstructed storage and no reference-count underflow ever happened (`bad = false`); the low bits are
+`≤ references_mask`; while the word designates a runner the low bits equal the number of helpers between their
+`CAS +1` and their `fetch_sub(1)`, all of which reference that runner; every runner's `m_ref_count` equals the number
+of `lifetime_guard`s on it; and a caller holding a guard holds it on a runner that is alive (its owner has not passed
+the destructor's `spin_wait_until_eq(m_ref_count, 0)`). -/
+theorem once_helper_count_bounded (throws : Nat → Bool) (calls : List Nat) (hN : calls.length ≤ U)
+    (sched : List Tid) (s : St) (hs : s = (sys U throws calls).run sched) :
+    s.bad = false ∧ s.word.lo ≤ Generated.C19.refMask ∧
+    (s.word.hi ≠ 0 → s.word.lo = s.ths.countP isPin ∧
+        ∀ (j : Nat) (th : Th), s.ths[j]? = some th → pinPc th.pc = true → th.tgt + 1 = s.word.hi) ∧
+    (∀ (i : Nat) (rn : Rn), s.rns[i]? = some rn → rn.refc = s.ths.countP (isGuardOn i)) ∧
+    (∀ (j : Nat) (th : Th), s.ths[j]? = some th → guardPc th.pc = true →
+        ∃ rn tho, s.rns[th.tgt]? = some rn ∧ s.ths[th.tgt]? = some tho ∧ rn.alive = true ∧ 0 < rn.refc ∧ winAlive tho.pc = true) := by
+  subst hs
+  have h := inv_reachable U throws calls hN sched
+  have hl := lo_bound U _ h (by decide)
+  refine ⟨h.nbad, ?_, fun hhi => ⟨(hl.2 hhi).1, h.pinT⟩, h.refc, fun j th hth hg => guard_alive U _ h j th hth hg⟩
+  have : U = Generated.C19.refMask + 1 := by decide
+  omega
+
+/-- The bound on the number of callers in the theorems above is necessary: with more callers than
+`max_references + 1` the mask test of the helper loop does NOT prevent the overflow, because a helper that arrives
+with a stale `expected` (a previous runner) compares the word against the wrong `max_value`.  Shown here on the model
+with `max_references = 2` and 4 callers: caller 1 still holds `expected` = runner of caller 0 (whose attempt threw),
+caller 2 is the new winner, caller 3 holds the single available reference, and caller 1's CAS then carries into the
+pointer bits.  (For the real constant 128 the same schedule needs 130 concurrent callers.) -/
+theorem once_refcount_overflow_beyond_bound :
+    ((sys 2 (fun k => k == 0) [1, 1, 1, 1]).run [0,0,0, 1,1, 0,0,0,0, 2,2,2, 3,3,3,3, 1,1]).bad = true ∧
+    ((sys 2 (fun k => k == 0) [1, 1, 1, 1]).run [0,0,0, 1,1, 0,0,0,0, 2,2,2, 3,3,3,3, 1,1]).word = ⟨4, 0⟩ := by
+  decide
+
+/-! non-vacuity: the hypotheses are satisfiable and the interesting states are reachable -/
+
+/-- two callers, the first invocation throws: caller 0 gets the exception, caller 1 retries, succeeds, returns -/
+example :
+    let s := (sys U (fun k => k == 0) [1, 1]).run
+      [0,0,0, 1,1, 0,0,0,0,0,0,0,0, 1,1, 1,1,1,1,1,1,1,1]
+    s.succ = 1 ∧ s.word = Word.done ∧ s.winners = [0, 1] ∧
+    s.ths.map (·.rets) = [[Ret.exc 0], [Ret.ok 1]] ∧ s.bad = false := by decide
+
+/-- a helper pins the winner's runner, takes a guard, waits for the attempt and everybody returns after the success -/
+example :
+    let s := (sys U (fun _ => false) [1, 1]).run
+      [0,0,0, 1,1,1,1, 0, 1,1,1, 0,0,0,0,0, 1,1, 0,0, 1,1,1,1]
+    s.succ = 1 ∧ s.ths.map (·.rets) = [[Ret.ok 1], [Ret.ok 1]] ∧ s.ths.map (·.pc) = [.idle, .idle] ∧ s.bad = false := by decide
+
+/-! ### enumerable_thread_specific / combinable (`ets_base::table_lookup`)
+
+The theorems quantify over EVERY number of threads, every assignment of 64-bit hashes to the threads' keys (`hs[i].1`,
+collisions included), every number of lookups per thread (`hs[i].2`) and EVERY schedule of the atomic-access-level
+model `Ets.sys` (accesses to `my_root`, `my_count` and the slot keys).  `HB`/`L0` are the regenerated hash width and
+first-array lg_size. -/
+
+open Ets
+
+abbrev HB : Nat := Generated.C19.etsHashBits
+abbrev L0 : Nat := Generated.C19.etsInitLg
+
+/-- regenerated ETS constants: `start(h) = h >> (64 - lg_size)`, first array has 2^2 slots, keys are one word -/
+theorem ets_constants : Generated.C19.etsHashBits = 64 ∧ Generated.C19.etsInitLg = 2 ∧ Generated.C19.etsKeyBytes = 8 := by decide
+
+/-- **One element per thread.**  In every reachable state, for every thread `t`:
+`create_local()` has run at most once for it (`created ≤ 1`, and `created` is the number of entries of `my_locals`
+created by `t`); every finished lookup of `t` returned the same pointer, namely the element `t` created
+(`my_locals[p-1]` was created by `t`); hence two different threads never got the same element; and every occupied slot
+of every array holds, next to the key of a thread, that thread's own element. -/
+theorem ets_one_element_per_thread (hs : List (Nat × Nat)) (hB : ∀ p ∈ hs, p.1 < 2 ^ HB) (sched : List Tid)
+    (s : Ets.St) (hst : s = (Ets.sys HB L0 hs).run sched) :
+    (∀ (t : Nat) (th : Ets.Th), s.ths[t]? = some th →
+        th.created ≤ 1 ∧ th.created = s.locals.count t ∧
+        ∀ pe ∈ th.rets, pe.1 = th.elem ∧ pe.1 ≠ 0 ∧ s.locals[pe.1 - 1]? = some t) ∧
+    (∀ (t t' : Nat) (th th' : Ets.Th) (pe pe' : Nat × Bool), s.ths[t]? = some th → s.ths[t']? = some th' →
+        pe ∈ th.rets → pe' ∈ th'.rets → pe.1 = pe'.1 → t = t') ∧
+    (∀ (j : Nat) (a : Arr) (idx : Nat), s.arrs[j]? = some a → a.key idx ≠ 0 →
+        ∃ th : Ets.Th, s.ths[a.key idx - 1]? = some th ∧ a.ptr idx = th.elem ∧ th.elem ≠ 0) ∧
+    s.bad = false := by
+  subst hst
+  have h := einv_reachable HB L0 (by decide) hs hB sched
+  have key : ∀ (t : Nat) (th : Ets.Th), ((Ets.sys HB L0 hs).run sched).ths[t]? = some th → ∀ pe ∈ th.rets,
+      pe.1 = th.elem ∧ pe.1 ≠ 0 ∧ ((Ets.sys HB L0 hs).run sched).locals[pe.1 - 1]? = some t := by
+    intro t th hth pe hpe
+    have l := h.l t th hth
+    obtain ⟨h1, h2⟩ := l.rts pe hpe
+    exact ⟨h1, by rw [h1]; exact h2, by rw [h1]; exact (l.elm.1 h2).2⟩
+  refine ⟨fun t th hth => ⟨(h.l t th hth).cre.2, (h.l t th hth).cre.1, key t th hth⟩, ?_, h.g.slot, h.nbad⟩
+  intro t t' th th' pe pe' hth hth' hpe hpe' e
+  have h1 := (key t th hth pe hpe).2.2
+  have h2 := (key t' th' hth' pe' hpe').2.2
+  rw [e, h2] at h1
+  exact (Option.some.inj h1).symm
+
+/-- **Probe invariant and load factor.**  In every reachable state, for every array `a` of the chain:
+(1) every occupied slot `idx` holds the key of an existing thread and is reached from that key's start index
+    `start(h)` through occupied slots only (`D` probes away), so the probe loop (`probeFind`: stop at an empty slot,
+    return at a match) returns a slot with that key within `D+1` probes — the key is found before an empty slot, in
+    every array that holds it;
+(2) a key occurs at most once per array;
+(3) the load is at most 1/2: at most `size/2` slots are occupied (the tickets `++my_count` hands out are distinct and a
+    thread only inserts into arrays of at least twice its ticket), hence
+(4) an empty slot always exists — the insert loop `for(i = start;; i = (i+1)&mask) if empty && claim` cannot run around
+    a full array. -/
+theorem ets_probe_invariant (hs : List (Nat × Nat)) (hB : ∀ p ∈ hs, p.1 < 2 ^ HB) (sched : List Tid)
+    (s : Ets.St) (hst : s = (Ets.sys HB L0 hs).run sched) :
+    ∀ (j : Nat) (a : Arr), s.arrs[j]? = some a →
+      (∀ (idx : Nat), idx < a.size → a.key idx ≠ 0 →
+        ∃ (th : Ets.Th) (D : Nat), s.ths[a.key idx - 1]? = some th ∧
+          idx = (start HB th.h a.lg + D) % a.size ∧
+          (∀ d, d < D → a.key ((start HB th.h a.lg + d) % a.size) ≠ 0) ∧
+          ∃ idx', probeFind a (a.key idx) (D + 1) (start HB th.h a.lg % a.size) = some idx' ∧ a.key idx' = a.key idx) ∧
+      (∀ (idx idx' : Nat), a.key idx ≠ 0 → a.key idx = a.key idx' → idx = idx') ∧
+      (occ a).length ≤ a.size / 2 ∧
+      (∃ idx, idx < a.size ∧ a.key idx = 0) := by
+  subst hst
+  obtain ⟨h, ht⟩ := Ets.both_reachable HB L0 (by decide) hs hB sched
+  intro j a ha
+  refine ⟨?_, fun idx idx' hk he => ht.g.uniq j a idx idx' ha hk he, load_le_half h ht j a ha, empty_slot_exists h ht j a ha⟩
+  intro idx hi hk
+  obtain ⟨th, D, h1, h2, h3⟩ := h.g.path j a idx ha hi hk
+  exact ⟨th, D, h1, h2, h3.2, probeFind_path HB a th.h (a.key idx) D hk h3⟩
+
+/-- **Growth preserves the table.**  Whatever happens after a state `s1 = run sched1` (any continuation `sched2`):
+every array of the chain is still in the chain at the same position with the same size, and every occupied slot still
+holds the same key and the same element pointer (growth chains the old array, nothing is ever unlinked or
+overwritten).  Moreover, in every reachable state each array of the chain has exactly `2^lg` slots, `lg ≥` the
+initial lg, and lg strictly increases along the chain (every new root is at least twice as large as the previous
+one), and `my_count` equals the number of elements created. -/
+theorem ets_growth_preserves (hs : List (Nat × Nat)) (hB : ∀ p ∈ hs, p.1 < 2 ^ HB) (sched1 sched2 : List Tid) :
+    let s1 := (Ets.sys HB L0 hs).run sched1
+    let s2 := (Ets.sys HB L0 hs).run (sched1 ++ sched2)
+    (∀ (j : Nat) (a : Arr), s1.arrs[j]? = some a →
+        ∃ a' : Arr, s2.arrs[j]? = some a' ∧ a'.lg = a.lg ∧
+          ∀ idx, a.key idx ≠ 0 → a'.key idx = a.key idx ∧ a'.ptr idx = a.ptr idx) ∧
+    (∀ (j : Nat) (a : Arr), s2.arrs[j]? = some a → a.keys.length = 2 ^ a.lg ∧ a.ptrs.length = 2 ^ a.lg ∧ L0 ≤ a.lg) ∧
+    (∀ (j : Nat) (a a' : Arr), s2.arrs[j]? = some a → s2.arrs[j + 1]? = some a' → a.lg < a'.lg) ∧
+    s2.count = s2.locals.length := by
+  intro s1 s2
+  have h := einv_reachable HB L0 (by decide) hs hB (sched1 ++ sched2)
+  have e : s2 = (Ets.sys HB L0 hs).runFrom s1 sched2 := by
+    simp only [s2, s1, Sys.run, Sys.runFrom_append]
+  refine ⟨?_, h.g.wfA, h.g.lgI, count_reachable HB L0 hs _⟩
+  rw [e]
+  exact ext_runFrom HB L0 hs s1 sched2
+
+/-- **Iteration / combine visit every thread's element exactly once.**  In every reachable state `my_locals` (what
+iteration, `combine` and `combine_each` walk) contains, for every thread, exactly `created ≤ 1` entries; a thread
+that has returned from a lookup has exactly one, and it is the element its lookups returned; every entry belongs to
+an existing thread that created exactly one element. -/
+theorem ets_iteration_each_once (hs : List (Nat × Nat)) (hB : ∀ p ∈ hs, p.1 < 2 ^ HB) (sched : List Tid)
+    (s : Ets.St) (hst : s = (Ets.sys HB L0 hs).run sched) :
+    (∀ (t : Nat) (th : Ets.Th), s.ths[t]? = some th → s.locals.count t ≤ 1 ∧
+        (th.rets ≠ [] → s.locals.count t = 1 ∧ s.locals[th.elem - 1]? = some t ∧ ∀ pe ∈ th.rets, pe.1 = th.elem)) ∧
+    (∀ c ∈ s.locals, ∃ th : Ets.Th, s.ths[c]? = some th ∧ th.created = 1 ∧ s.locals.count c = 1) ∧
+    (Ets.iterate s).map (·.2) = s.locals := by
+  subst hst
+  have h := einv_reachable HB L0 (by decide) hs hB sched
+  refine ⟨?_, ?_, ?_⟩
+  · intro t th hth
+    have l := h.l t th hth
+    refine ⟨by rw [← l.cre.1]; exact l.cre.2, fun hne => ?_⟩
+    obtain ⟨pe, hpe⟩ := List.exists_mem_of_ne_nil _ hne
+    have h2 := (l.rts pe hpe).2
+    have h3 := l.elm.1 h2
+    exact ⟨by rw [← l.cre.1]; exact h3.1, h3.2, fun pe' hpe' => (l.rts pe' hpe').1⟩
+  · intro c hc
+    have hlt := h.g.locB c hc
+    obtain ⟨th, hth⟩ : ∃ th, ((Ets.sys HB L0 hs).run sched).ths[c]? = some th := ⟨_, List.getElem?_eq_getElem hlt⟩
+    have l := h.l c th hth
+    have hpos : 0 < ((Ets.sys HB L0 hs).run sched).locals.count c := List.count_pos_iff.mpr hc
+    have := l.cre
+    exact ⟨th, hth, by omega, by omega⟩
+  · simp only [Ets.iterate, List.map_map]
+    apply List.ext_getElem
+    · simp
+    · intro i h1 h2
+      simp at h1
+      simp [List.getD_eq_getElem?_getD, h1]
+
+set_option maxRecDepth 4096 in
+/-- non-vacuity: three threads with colliding hashes (all start at slot 0), thread 0 looks up twice; the table grows
+from 4 to 8 slots; every thread ends with its own element; thread 0's second lookup finds its key in the OLD array
+(behind thread 1's slot), returns the same element (`exists = true`) and re-inserts it into the new root. -/
+example :
+    let s := (Ets.sys HB L0 [(1, 2), (2, 1), (3, 1)]).run
+      ([0,0,0,0,0,0] ++ [1,1,1,1,1,1,1,1] ++ [2,2,2,2,2,2,2,2,2,2] ++ [0,0,0,0,0,0,0,0,0,0,0,0,0,0,0,0])
+    s.arrs.map (·.lg) = [2, 3] ∧ s.locals = [0, 1, 2] ∧ s.count = 3 ∧
+    s.ths.map (·.rets) = [[(1, true), (1, false)], [(2, false)], [(3, false)]] ∧
+    s.ths.map (·.pc) = [.idle, .idle, .idle] ∧ s.arrs.map (·.keys) = [[2, 1, 0, 0], [3, 1, 0, 0, 0, 0, 0, 0]] := by decide
+
 end TbbVerif.C19
